@@ -9,6 +9,7 @@ package main
 // types.ShardIndicesForValidator (with the keeper's GetZkpThreshold), Groth16 verification.
 
 import (
+	stakingtypes "cosmossdk.io/x/staking/types"
 	"bytes"
 	"encoding/json"
 	"fmt"
@@ -694,6 +695,10 @@ func daSetup(e *Env, zk *daZk, nv int, par daParams) (w *daWorld, s0 daSnap, ok 
 	}
 	cfg.Start = cfg.Start.Add(time.Duration(r.N(1_000_000_000))) // sub-second genesis offset
 	realPar := par.real()
+	capVals := nv >= 3 && r.N(3) == 0
+	if capVals {
+		e.Stat("setup.validator_outside_max_validators")
+	}
 	cfg.GenesisMut = func(_ sim.Codec, gs map[string]json.RawMessage) {
 		var g map[string]json.RawMessage
 		_ = json.Unmarshal(gs[datypes.ModuleName], &g)
@@ -709,6 +714,20 @@ func daSetup(e *Env, zk *daZk, nv int, par daParams) (w *daWorld, s0 daSnap, ok 
 	if err != nil {
 		e.Obs("setup-error %v", err)
 		return nil, daSnap{}, false
+	}
+	if capVals {
+		// governance lowers max_validators below the number of validators: at the next staking end-block the weakest one
+		// starts unbonding - it keeps its tokens and its entry in the staking power index, but is no longer bonded
+		sp, _ := c.App.StakingKeeper.Params.Get(c.Ctx())
+		sp.MaxValidators = uint32(nv - 1)
+		sp.KeyRotationFee = sdk.NewCoin(sp.BondDenom, sp.KeyRotationFee.Amount) // the handler validates it against the bond denom
+		gov := authtypes.NewModuleAddress("gov").String()
+		if _, err, p := c.Exec(&stakingtypes.MsgUpdateParams{Authority: gov, Params: sp}); err != nil || p != nil {
+			e.Note("staking MsgUpdateParams: %v %v", err, p)
+		}
+		if _, err := c.NextBlock(time.Second); err != nil {
+			e.Note("setup block: %v", err)
+		}
 	}
 	w = &daWorld{e: e, c: c, zk: zk, name: map[string]string{}, accOf: map[string]sim.Acc{}, nv: nv, par: par, dust: map[string]*big.Int{}, shard: map[string][]int{}}
 	for _, d := range daDenoms {
@@ -1103,6 +1122,29 @@ func (w *daWorld) assignedNow(uri, val string, shards int) []int64 {
 	return datypes.ShardIndicesForValidator(sdk.ValAddress(w.accOf[val].Addr), int64(thr), int64(shards))
 }
 
+// refThreshold: clamp(ceil(replication_factor * shards / #bonded), 1, shards), the quotient truncated at 18 decimals as
+// LegacyDec.QuoInt64 does
+func (w *daWorld) refThreshold(shards int, bonded int) int64 {
+	if bonded <= 0 || shards <= 0 {
+		return 0
+	}
+	e18 := new(big.Int).Exp(big.NewInt(10), big.NewInt(18), nil)
+	q := new(big.Int).Mul(w.par.rf, big.NewInt(int64(shards)))
+	q.Quo(q, big.NewInt(int64(bonded)))
+	c, m := new(big.Int).QuoRem(q, e18, new(big.Int))
+	if m.Sign() > 0 {
+		c.Add(c, big.NewInt(1))
+	}
+	t := c.Int64()
+	if t < 1 {
+		t = 1
+	}
+	if t > int64(shards) {
+		t = int64(shards)
+	}
+	return t
+}
+
 func (w *daWorld) safeThreshold(shards uint64) (thr uint64, err error) {
 	defer func() {
 		if r := recover(); r != nil {
@@ -1175,9 +1217,11 @@ func (w *daWorld) block(pre daSnap, dt int64, cur *daSnap) (active []string, asg
 		if len(active) == 0 {
 			continue
 		}
-		thr, err := w.safeThreshold(uint64(it.shards))
-		if err != nil {
-			continue
+		// the assignment threshold by its definition, from the number of BONDED validators the harness sees (not from the keeper:
+		// the keeper's GetZkpThreshold is compared with it below)
+		thr := w.refThreshold(it.shards, len(active))
+		if got, err := w.safeThreshold(uint64(it.shards)); err == nil {
+			e.Oracle("threshold_ref", int64(got) == thr, "item %s shards=%d bonded=%d GetZkpThreshold=%d definition=%d", u, it.shards, len(active), got, thr)
 		}
 		for _, v := range active {
 			ix := datypes.ShardIndicesForValidator(sdk.ValAddress(w.accOf[v].Addr), int64(thr), int64(it.shards))
